@@ -32,9 +32,14 @@ Section Plot.
 
   (* np.gradient(y, x): second-order accurate in the interior on a non-uniform grid, first-order
      one-sided differences at both ends *)
+  (* numpy's own arrangement: a f[i-1] + b f[i] + c f[i+1] with
+     a = -dx2/(dx1 (dx1+dx2)), b = (dx2-dx1)/(dx1 dx2), c = dx1/(dx2 (dx1+dx2)) *)
   Definition grad_interior (xm x0 xp ym y0 yp : T) : T :=
-    let hs := x0 -! xm in let hd_ := xp -! x0 in
-    (hs *! hs *! yp +! (hd_ *! hd_ -! hs *! hs) *! y0 -! hd_ *! hd_ *! ym) /! (hs *! hd_ *! (hd_ +! hs)).
+    let dx1 := x0 -! xm in let dx2 := xp -! x0 in
+    let a := nneg N dx2 /! (dx1 *! (dx1 +! dx2)) in
+    let b := (dx2 -! dx1) /! (dx1 *! dx2) in
+    let c := dx1 /! (dx2 *! (dx1 +! dx2)) in
+    a *! ym +! b *! y0 +! c *! yp.
   Fixpoint grad_tail (xm x0 ym y0 : T) (xs ys : list T) : list T :=
     match xs, ys with
     | xp :: xt, yp :: yt => grad_interior xm x0 xp ym y0 yp :: grad_tail x0 xp y0 yp xt yt
@@ -101,7 +106,7 @@ Qed.
 Theorem gradient_interior_exact_for_quadratics a b c xm x0 xp : xm < x0 -> x0 < xp ->
   let f := fun x => a * x ^ 2 + b * x + c in
   grad_interior NumR xm x0 xp (f xm) (f x0) (f xp) = 2 * a * x0 + b.
-Proof. intros H1 H2 f. unfold grad_interior, f. simpl. field. repeat split; lra. Qed.
+Proof. intros H1 H2 f. unfold grad_interior, f, nneg. simpl. field. repeat split; lra. Qed.
 
 Theorem gradient_ends_exact_for_lines b c x0 x1 : x0 <> x1 ->
   ((b * x1 + c) - (b * x0 + c)) / (x1 - x0) = b.
